@@ -2,7 +2,6 @@ package poaante
 
 import (
 	sdk "github.com/cosmos/cosmos-sdk/types"
-	"github.com/cosmos/cosmos-sdk/x/authz"
 	stakingtypes "github.com/cosmos/cosmos-sdk/x/staking/types"
 
 	"github.com/strangelove-ventures/poa"
@@ -33,9 +32,8 @@ func (msfd MsgStakingFilterDecorator) AnteHandle(ctx sdk.Context, tx sdk.Tx, sim
 
 func (msfd MsgStakingFilterDecorator) hasInvalidStakingMsg(msgs []sdk.Msg) error {
 	for _, msg := range msgs {
-		// authz nested message check (recursive)
-		if execMsg, ok := msg.(*authz.MsgExec); ok {
-			msgs, err := execMsg.GetMessages()
+		// nested message check (recursive): authz MsgExec, gov / group proposals, ...
+		if msgs, ok, err := nestedMsgs(msg); ok {
 			if err != nil {
 				return err
 			}
